@@ -394,11 +394,22 @@ def from_nested_to_long(
         Long pandas DataFrame
     """
 
-    long_df = from_nested_to_multi_index(
+    X_mi = from_nested_to_multi_index(
         X, instance_index="index", time_index="time_index"
     )
-    long_df.reset_index(inplace=True)
-    long_df = long_df.melt(id_vars=["index", "time_index"], var_name="column")
+    # one block of rows per column, in column order; the column labels only ever
+    # become values of "column", so they cannot clash with the helper labels
+    ids = X_mi.index.to_frame(index=False)
+    long_df = pd.concat(
+        [
+            ids.assign(
+                column=pd.Series([label] * len(ids), dtype=object),
+                value=X_mi.iloc[:, j].to_numpy(),
+            )
+            for j, label in enumerate(X_mi.columns)
+        ],
+        ignore_index=True,
+    )
 
     col_rename_dict = {}
     if instance_column_name is not None:
